@@ -930,70 +930,40 @@ def c8_uncapture_order(fb, rep, clause):
     conds = [show(eff_cond(blk['term']), 80) for bid, blk in ss.blocks.items() if (blk.get('term') or {}).get('c') == 'IfStmt']
     prem = any('== 0' in c for c in conds) and any('nWhite' in c and '==' in c for c in conds)
     rep.ob(clause, 'K10 premise', 'TBIndex::setSquare treats piece 0 (white king: mirrors) and piece nWhite (black king: drags absent pieces) specially', prem, ss.where, str(conds), ss.sname)
-    # the un-capture if: both arms hold two setSquare calls
-    found = 0
+    # the un-capture sites: blocks that place two different piece numbers one after the other, one of them the re-appearing
+    # piece (a number taken from the set of absent pieces with extractSquare), the other the mover.  Which block runs for a
+    # given mover is decided by evaluating its guards, so an if / else, a conditional swap or no test at all are judged alike.
+    decls = {v['id']: v for _, _, e in gu.events() if e.get('k') == 'decl' for v in e.get('vars', [])}
+    reapp = {vid for vid, v in decls.items() if v.get('init') is not None and any(isinstance(n, dict) and n.get('k') == 'call' and cname(n) == 'BitBoard::extractSquare' for n in walk(v['init']))}
+    sites = []
     for bid, blk in sorted(gu.blocks.items()):
-        t = blk.get('term') or {}
-        if t.get('c') != 'IfStmt' or len(blk['succ']) != 2:
-            continue
-        arms = []
-        for s_ in blk['succ']:
-            calls = [e for e in gu.blocks[s_]['ev'] if e.get('k') == 'call' and cname(e) == 'TBIndex::setSquare']
-            arms.append(calls)
-        if not all(len(a) == 2 for a in arms):
-            continue
-        found += 1
-        # the mover: the piece-number variable that the un-move loop also used for the plain un-move (first argument that is the loop variable i)
-        first_then, first_else = (_strip12(arms[0][0]['args'][0]) or {}), (_strip12(arms[1][0]['args'][0]) or {})
-        ids_then = [(_strip12(c['args'][0]) or {}).get('id') for c in arms[0]]
-        ids_else = [(_strip12(c['args'][0]) or {}).get('id') for c in arms[1]]
-        if set(ids_then) != set(ids_else) or len(set(ids_then)) != 2:
-            rep.broken(clause, 'the two un-capture arms do not place the same two pieces')
-            return
-        # which of the two is the mover: the one placed on a from-square (second argument differs from the current square `to` of the mover)
-        # structurally: the mover is the variable compared in the guard
-        gvars = {n.get('id') for n in walk(t['cond']) if n.get('k') == 'var'}
-        movers = [v for v in set(ids_then) if v in gvars]
+        calls = [e for e in blk['ev'] if e.get('k') == 'call' and cname(e) == 'TBIndex::setSquare' and e.get('args')]
+        ids = [(_strip12(c['args'][0]) or {}).get('id') for c in calls]
+        if len(calls) == 2 and None not in ids and len(set(ids)) == 2 and len(set(ids) & reapp) == 1:
+            sites.append((bid, ids, calls))
+    found = len(sites)
+    if found:
+        movers = {i_ for _, ids, _ in sites for i_ in ids if i_ not in reapp}
         if len(movers) != 1:
-            rep.broken(clause, 'the order guard does not test exactly one of the two piece numbers')
+            rep.broken(clause, 'the un-capture sites of getUnMoves do not move one piece variable')
             return
-        mover = movers[0]
+        mover = next(iter(movers))
         bad = []
         for N in (1, 2, 3):
             for i in range(0, 5):
-                def ev(x):
-                    x = _strip12(x)
-                    if not isinstance(x, dict):
-                        return None
-                    if 'cv' in x and x.get('k') != 'var':
-                        return x['cv']
-                    if x.get('k') == 'var' and x.get('id') == mover:
-                        return i
-                    if ap(x) == 'this.nWhite':
-                        return N
-                    if x.get('k') == 'bin' and x.get('op') in ('==', '!=', '<', '>', '<=', '>=', '&&', '||', '+', '-'):
-                        a, b_ = ev(x.get('l')), ev(x.get('r'))
-                        if a is None or b_ is None:
-                            return None
-                        return {'==': int(a == b_), '!=': int(a != b_), '<': int(a < b_), '>': int(a > b_), '<=': int(a <= b_), '>=': int(a >= b_),
-                                '&&': int(bool(a) and bool(b_)), '||': int(bool(a) or bool(b_)), '+': a + b_, '-': a - b_}[x['op']]
-                    if x.get('k') == 'un' and x.get('op') == '!':
-                        a = ev(x.get('e'))
-                        return None if a is None else int(not a)
-                    return None
-                v = ev(t['cond'])
-                if v is None:
-                    rep.broken(clause, 'the order guard of the un-capture is not evaluable: ' + show(t['cond'], 80))
-                    return
-                order = ids_then if v else ids_else
-                mover_first = order[0] == mover
-                if i == N and not mover_first:
-                    bad.append('black king (piece %d of nWhite=%d) is moved after the re-appearing piece' % (i, N))
-                if i == 0 and mover_first:
-                    bad.append('white king (piece 0) is moved before the re-appearing piece is placed')
-        rep.ob(clause, 'K10 call-order agreement', 'getUnMoves: un-capture moves the black king first and the white king last', not bad, '%s:%s' % (gu.file, t.get('ln')),
-               'guard %s; %s' % (show(t['cond'], 60), sorted(set(bad))[:2]), gu.sname)
-    rep.floor(clause, 'un-capture order decisions in getUnMoves', found, 1)
+                leaf = lambda t, _i=i, _N=N: ('v', _i) if (t.get('k') == 'var' and t.get('id') == mover) else (('v', _N) if ap(t) == 'this.nWhite' else None)
+                live = [(bid, ids) for bid, ids, _ in sites if not G.excluded_under(gu, bid, leaf)]
+                if not live:
+                    continue        # this piece number is not un-captured at all (kings are never absent; nothing to order)
+                for bid, ids in live:
+                    mover_first = ids[0] == mover
+                    if i == N and not mover_first:
+                        bad.append('black king (piece %d of nWhite=%d) is moved after the re-appearing piece' % (i, N))
+                    if i == 0 and mover_first:
+                        bad.append('white king (piece 0) is moved before the re-appearing piece is placed')
+        rep.ob(clause, 'K10 call-order agreement', 'getUnMoves: un-capture moves the black king first and the white king last', not bad, '%s:%s' % (gu.file, sites[0][2][0].get('ln')),
+               '%d un-capture site(s); %s' % (found, sorted(set(bad))[:2]), gu.sname)
+    rep.floor(clause, 'un-capture sites in getUnMoves', found, 1)
     # the same two constraints where a whole position is placed: TBPosition::setPosition (probe path only - the generated
     # table is unaffected, every probe of a position with a real piece on the black king's initial index square is)
     sp = fb.find1('TBPosition::setPosition')
